@@ -50,6 +50,11 @@ class SimFS:
 
     def listdir(self, path: str) -> list[str]:
         self.events.append(["listdir", path[len(ROOT):]])
+        f = self.fault
+        if f is not None and self.fault_fired is None and f["kind"] == "LISTDIR_EIO" and path == f"{ROOT}/{f['dir']}":
+            self.fault_fired = "LISTDIR_EIO"
+            self.events.append(["fault", "LISTDIR_EIO", f["dir"]])
+            raise OSError(errno.EIO, "simulated I/O error while listing the directory", path)
         if path == ROOT:
             return [p[len(ROOT) + 1:] for p in self.dirs]
         if path not in self.dirs:
